@@ -288,10 +288,19 @@ func checkC12(w *World) {
 			for _, b := range getCall.Parent().Blocks {
 				for _, a := range guardAtoms(b) {
 					if ex, ok := a.V.(*ssa.Extract); ok && ex.Tuple == ssa.Value(getCall) && ex.Index == 1 && a.Pol {
-						for _, in := range b.Instrs {
-							if _, isRet := in.(*ssa.Return); isRet {
+						// the block returns, or leaves the loops for good (`break search`) straight to a return
+						loops := loopBlocks(getCall.Parent())
+						cur := b
+						for steps := 0; steps < 5 && cur != nil; steps++ {
+							last := cur.Instrs[len(cur.Instrs)-1]
+							if _, isRet := last.(*ssa.Return); isRet {
 								returns = true
+								break
 							}
+							if _, isJump := last.(*ssa.Jump); !isJump || loops[cur.Succs[0]] {
+								break
+							}
+							cur = cur.Succs[0]
 						}
 					}
 				}
